@@ -22,8 +22,8 @@ RULE = ("spelling groups derived from the op table and the registries at run tim
         "(function, spelling set, option keys, operand kinds).")
 ASSUMPTIONS = ["the first listed spelling (mg.f) is the reference; spellings are compared with each other, not with NumPy (C03 does that)"]
 TIERS = {"quick": {"cases": 12000}, "thorough": {"cases": 400000}}
-FLOORS = {"quick": {"spellings_compared": 4000, "negative_checks": 50, "nondiff_type_checks": 2000, "nondiff_refused_nonconstant": 30},
-          "thorough": {"spellings_compared": 20000, "negative_checks": 50, "nondiff_type_checks": 10000, "nondiff_refused_nonconstant": 150}}
+FLOORS = {"quick": {"spellings_compared": 4000, "negative_checks": 50, "nondiff_type_checks": 2000, "nondiff_refused_nonconstant": 30, "nondiff_spellings_compared": 1500},
+          "thorough": {"spellings_compared": 20000, "negative_checks": 50, "nondiff_type_checks": 10000, "nondiff_refused_nonconstant": 150, "nondiff_spellings_compared": 8000}}
 
 GENS = [(B.g_unary, 12), (B.g_binary, 20), (B.g_matmul, 4), (B.g_reduce, 10), (B.g_cum, 3), (B.g_norm, 2), (B.g_einsum, 3), (B.g_where, 2),
         (B.g_clip, 3), (B.g_shape, 10), (B.g_join, 3), (B.g_repeat, 2)]
@@ -65,6 +65,33 @@ def gen_case(rng, cfg, idx):
         seed = enc_arr(B.rand_values(rng, np.shape(Lv), 0.3, 1.5)) if np.size(Lv) else None
         return {"kind": "spell", "prog": b.prog, "ci": ci, "seed": seed, "nonconst": bool(b.meta[out]["nonconst"])}
     return None
+
+
+def nondiff_spellings(nd):
+    """[(name, callable(args, kw))]: the MyGrad-side spellings of one non-differentiable operation."""
+    import operator
+    import mygrad as mg
+    g, fn = nd["group"], nd["fn"]
+    if g in ("bool1", "bool2", "const1", "const2"):
+        out = [("np." + fn, lambda a, k: getattr(np, fn)(*a, **k)), ("mg." + fn, lambda a, k: getattr(mg, fn)(*a, **k))]
+        if fn in ("remainder", "mod"):
+            other = "mod" if fn == "remainder" else "remainder"
+            out.append(("mg." + other, lambda a, k: getattr(mg, other)(*a, **k)))
+        if fn == "floor_divide":
+            out.append(("//", lambda a, k: operator.floordiv(*a)))
+        return out
+    if g == "cmp":
+        uf = {"lt": "less", "le": "less_equal", "gt": "greater", "ge": "greater_equal", "eq": "equal", "ne": "not_equal"}[fn]
+        return [("operator " + fn, lambda a, k: getattr(operator, fn)(*a)), ("np." + uf, lambda a, k: getattr(np, uf)(*a)),
+                ("mg." + uf, lambda a, k: getattr(mg, uf)(*a))]
+    if g == "floordiv":
+        if fn == "floordiv":
+            return [("//", lambda a, k: a[0] // a[1]), ("np.floor_divide", lambda a, k: np.floor_divide(a[0], a[1]))]
+        return [("r//", lambda a, k: a[1] // a[0]), ("np.floor_divide", lambda a, k: np.floor_divide(a[1], a[0]))]
+    if g == "argred":
+        return [("np." + fn, lambda a, k: getattr(np, fn)(a[0], **k)), ("mg." + fn, lambda a, k: getattr(mg, fn)(a[0], **k)),
+                ("method", lambda a, k: getattr(a[0], fn)(**k))]
+    return []
 
 
 def _isref(a, it_meta):
@@ -163,6 +190,38 @@ def run_case(case):
         c = r.get("counters", {})
         r["counters"] = {"nondiff_type_checks": c.get("nondiff_compared", 0) + c.get("nondiff_compared_untracked", 0),
                          "nondiff_refused_nonconstant": c.get("nondiff_refused_nonconstant", 0)}
+        # every MyGrad spelling of the same non-differentiable operation on the same tensor operands must agree with the others
+        nd = case["nd"]
+        alts = nondiff_spellings(nd)
+        if len(alts) > 1 and not r["viol"]:
+            import warnings
+            outs = []
+            for name, f in alts:
+                it = Interp("mg", use_npf=True)
+                it.run(case["prog"], catch=False)
+                args = [it.env[n] for n in nd["args"]]
+                kw = {k: v for k, v in nd["kw"].items() if k != "__out"}
+                try:
+                    with warnings.catch_warnings(), np.errstate(all="ignore"):
+                        warnings.simplefilter("ignore")
+                        outs.append((name, f(args, kw)))
+                except Exception as e:
+                    outs.append((name, e))
+            n0, r0 = outs[0]
+            for n1, r1 in outs[1:]:
+                r["counters"]["nondiff_spellings_compared"] = r["counters"].get("nondiff_spellings_compared", 0) + 1
+                if isinstance(r0, Exception) or isinstance(r1, Exception):
+                    same = isinstance(r0, Exception) and isinstance(r1, Exception) and type(r0) is type(r1)
+                else:
+                    a0 = r0 if isinstance(r0, tuple) else (r0,)
+                    a1 = r1 if isinstance(r1, tuple) else (r1,)
+                    same = len(a0) == len(a1) and all(
+                        np.asarray(x).dtype == np.asarray(y).dtype and np.asarray(x).shape == np.asarray(y).shape
+                        and np.array_equal(np.asarray(x), np.asarray(y), equal_nan=np.asarray(x).dtype.kind in "fc") for x, y in zip(a0, a1))
+                if not same:
+                    r["viol"].append({"monitor": "spellings", "mech": f"nondiff-spellings-differ:{nd['fn']}",
+                                      "msg": f"{nd['fn']} {case['kinds']} kw={nd['kw']}: {n0} -> {str(r0)[:80]!r} but {n1} -> {str(r1)[:80]!r}"})
+                    break
         return r
     st = case["prog"][case["ci"]]
     fn = st["fn"]
